@@ -1,6 +1,7 @@
 (* Core/CanAssignK.v — MODEL of T.can_assign(KnownValue(o), ctx) for a static type T
    (what pyanalyze.runtime.is_assignable computes), following the dispatch of
-   value.py: KnownValue / TypedValue / NewTypeValue / GenericValue (through
+   value.py (with repo_fixes/C03-frozenset-elements.diff applied: frozenset
+   literals are expanded like list / tuple / set literals): KnownValue / TypedValue / NewTypeValue / GenericValue (through
    replace_known_sequence_value and get_generic_bases) / SequenceValue /
    TypedDictValue / SubclassValue / MultiValuedValue / AnnotatedValue.  No proofs. *)
 From Coq Require Import ZArith List Bool NArith.
@@ -69,7 +70,7 @@ Section CanAssignK.
     | VNode (TGeneric d) args =>
         (* the argument of the generic base, as a list of element literals / a class / Any *)
         let table := match o with
-                     | OTuple _ _ | OList _ _ | OSet _ _ | ODict _ _ => gb_args ct (class_of o) d
+                     | OTuple _ _ | OList _ _ | OSet _ _ | OFrozenset _ | ODict _ _ => gb_args ct (class_of o) d
                      | _ => gb_noargs ct (class_of o) d
                      end in
         match table with
@@ -84,7 +85,7 @@ Section CanAssignK.
                      | GAnyv => true
                      | GArg i =>
                          match o with
-                         | OTuple _ es | OList _ es | OSet _ es => forallb (ca X) (dedup_lits es)
+                         | OTuple _ es | OList _ es | OSet _ es | OFrozenset es => forallb (ca X) (dedup_lits es)
                          | ODict _ kvs =>
                              forallb (ca X) (dedup_lits (map (if Nat.eqb i 0 then fst else snd) kvs))
                          | _ => true
